@@ -151,18 +151,30 @@ where
     let nf = RefCell::new(0usize);
     let nj = RefCell::new(0usize);
     let method = case["method"].as_str().unwrap().to_string();
+    // closure calls in order, for the design-level trace of newton(): kind, argument, value (F) or matrix rows (J)
+    let calls: RefCell<Vec<Value>> = RefCell::new(vec![]);
+    let trace = method == "newton";
     let r = std::panic::catch_unwind(std::panic::AssertUnwindSafe(|| {
         let f = |x: &[f64]| {
             *nf.borrow_mut() += 1;
             if *nf.borrow() > budget {
                 panic!("budget");
             }
-            sys_f::<S>(&s, x)
+            let y = sys_f::<S>(&s, x);
+            if trace && calls.borrow().len() < 600 {
+                calls.borrow_mut().push(json!({"k": "f", "x": fvj(x), "v": fvj(y.as_slice()), "m": []}));
+            }
+            y
         };
         if method == "newton" {
             let j = |x: &[f64]| {
                 *nj.borrow_mut() += 1;
-                sys_j::<S>(&s, x)
+                let m = sys_j::<S>(&s, x);
+                if calls.borrow().len() < 600 {
+                    let rows: Vec<Value> = (0..S).map(|i| fvj(&(0..S).map(|c| m[(i, c)]).collect::<Vec<f64>>())).collect();
+                    calls.borrow_mut().push(json!({"k": "j", "x": fvj(x), "v": [], "m": rows}));
+                }
+                m
             };
             roots::newton::<f64, _, _, S>(&start, f, j, tol, nmax)
         } else {
@@ -170,6 +182,7 @@ where
         }
     }));
     let mut o = json!({"nf": *nf.borrow(), "nj": *nj.borrow(), "x": fvj(&vec![0.0; S])});
+    o["calls"] = Value::Array(calls.borrow().clone());
     match r {
         Ok(Ok(x)) => {
             o["ret"] = json!("ok");
